@@ -166,4 +166,21 @@ FrameRehierarch(f, axis, dm) ==
   ELSE LET ord == RehierOrder(src, dm) IN
        IF axis = 0 THEN MkFrame(RehierLabels(src, dm), f.columns, [j \in 1..NCols(f) |-> [dt |-> f.cols[j].dt, vals |-> Take(f.cols[j].vals, ord)]], f.name)
        ELSE MkFrame(f.index, RehierLabels(src, dm), Take(f.cols, ord), f.name)
+
+(* ---- element-wise mapping: iter_element().map_any / map_fill / map_all -------------------------------------------------- *)
+(* keys / vals: the mapping as two parallel sequences; a cell is looked up as a dictionary key is (numbers by value, None by    *)
+(* identity, NaN never found).  "any": a cell without an entry stays; "fill": it becomes the fill; "all": it is a lookup       *)
+(* error.  The result keeps the labels and drops the name; its dtype is inferred from the resulting values and is not part    *)
+(* of the statement (one missing marker, whole floats as ints: LooseCols of SFNA is restated here to keep SFShape independent) *)
+MapFind(keys, v) == IF \E k \in 1..Len(keys) : SameCell(keys[k], v) THEN CHOOSE k \in 1..Len(keys) : SameCell(keys[k], v) /\ \A j \in 1..(k - 1) : ~SameCell(keys[j], v) ELSE 0
+MapCell(keys, vals, mode, fill, v) == LET k == MapFind(keys, v) IN IF k > 0 THEN vals[k] ELSE IF mode = "any" THEN v ELSE fill
+MapMissing(keys, cells) == \E i \in 1..Len(cells) : MapFind(keys, cells[i]) = 0
+LooseCell(v) == IF IsNA(v) THEN <<"na">> ELSE IF Tag(v) = "f" /\ v[3] = 1 THEN <<"i", v[2]>> ELSE v
+SeriesMap(s, keys, vals, mode, fill) ==
+  IF mode = "all" /\ MapMissing(keys, s.vals) THEN Err("lookup")
+  ELSE MkSeries(s.index, [i \in 1..Len(s.vals) |-> LooseCell(MapCell(keys, vals, mode, fill, s.vals[i]))], <<"any", 0>>, None)
+FrameMap(f, keys, vals, mode, fill) ==
+  IF NCols(f) = 0 \/ NRows(f) = 0 THEN Unspecified          \* zero-sized Frames: the element iterator cannot rebuild them (zero-sized family)
+  ELSE IF mode = "all" /\ \E j \in 1..NCols(f) : MapMissing(keys, f.cols[j].vals) THEN Err("lookup")
+  ELSE MkFrame(f.index, f.columns, [j \in 1..NCols(f) |-> [dt |-> <<"any", 0>>, vals |-> [i \in 1..NRows(f) |-> LooseCell(MapCell(keys, vals, mode, fill, f.cols[j].vals[i]))]]], None)
 =============================================================================
